@@ -24,7 +24,23 @@ ASSUMPTIONS = ["destinations raise only Exception subclasses (the property's qua
 
 
 class Boom(Exception):
-    pass
+    """The destinations' failure.  Instances made with unprintable=True have no text: str() raises
+    (e.g. a __str__ formatting an attribute that is only set on some paths)."""
+
+    unprintable = False
+
+    def __str__(self):
+        if self.unprintable:
+            raise AttributeError("'Boom' object has no attribute 'detail'")
+        return Exception.__str__(self)
+
+
+def _text(e):
+    """What a failure report says about e: its text, or eliot's documented stand-in."""
+    try:
+        return str(e)
+    except Exception:
+        return "eliot: unknown, str() raised exception"
 
 
 class Rec(object):
@@ -52,6 +68,8 @@ class Rec(object):
         if self.can_fail and self.budget[0] > 0 and self.ctx.flag("fail %s#%d" % (self.name, self.calls)):
             self.budget[0] -= 1
             e = Boom("boom %s#%d" % (self.name, self.calls))
+            if self.ctx.shard.get("unprintable") and self.calls % 2 == 1:
+                e.unprintable = True
             self.fail_log.append((self.calls, e))
             raise e
 
@@ -132,7 +150,7 @@ def body_E1(ctx):
             pos += 1
             call_no += 1
             ctx.check(r.get("message_type") == "eliot:destination_failure", "expected a failure report after %s, got %r", what, strip(r))
-            ctx.check(r.get("reason") == str(e), "report reason %r, exception text %r", r.get("reason"), str(e))
+            ctx.check(r.get("reason") == _text(e), "report reason %r, exception text %r", r.get("reason"), _text(e))
             ctx.check(r.get("exception") == "props.c08.Boom", "report exception %r", r.get("exception"))
             rendering = r.get("message")
             ctx.check(isinstance(rendering, str), "report carries no rendering of the message")
@@ -196,7 +214,7 @@ def body_E3(ctx):
                 r = stream[pos]
                 pos += 1
                 call_no += 1
-                ctx.check(r.get("message_type") == "eliot:destination_failure" and r.get("reason") == str(e), "expected the report about %s, got %r", what, strip(r))
+                ctx.check(r.get("message_type") == "eliot:destination_failure" and r.get("reason") == _text(e), "expected the report about %s, got %r", what, strip(r))
     ctx.check(pos == len(stream), "%d unexpected extra messages: %r", len(stream) - pos, [strip(x) for x in stream[pos:]])
     n_fail = sum(len(d.fail_log) for d in dests)
     if n_fail:
@@ -305,7 +323,11 @@ def E4() -> bool:
 
 def _e1_shards(tier):
     base = {"max_dests": 3, "max_msgs": 3, "F": 3} if tier == "quick" else {"max_dests": 3, "max_msgs": 4, "F": 4}
-    return [dict(base, prefix=p) for p in enumerate_prefixes(body_E1, "X", {}, base, 4 if tier == "quick" else 5)]
+    out = [dict(base, prefix=p) for p in enumerate_prefixes(body_E1, "X", {}, base, 4 if tier == "quick" else 5)]
+    # failures whose exception has no text (str() raises): still exactly one report each
+    base2 = dict(base, unprintable=1, max_msgs=2, max_dests=2) if tier == "quick" else dict(base, unprintable=1, max_msgs=3)
+    out += [dict(base2, prefix=p) for p in enumerate_prefixes(body_E1, "X", {}, base2, 3)]
+    return out
 
 
 OBLIGATIONS = [
@@ -319,7 +341,7 @@ OBLIGATIONS = [
         shards=_e1_shards,
         twin=[{"max_dests": 3, "max_msgs": 3, "F": 3, "twin_label": "two-failures"}],
         timeout={"quick": 100, "thorough": 1200},
-        bounds={"quick": "<= 3 destinations, <= 3 messages (the first optionally a typed message whose serializer raises, i.e. replaced by its traceback + serialization_failure reports), optionally inside an action, <= 3 failing calls anywhere (incl. on reports)", "thorough": "<= 4 messages, <= 4 failing calls"},
+        bounds={"quick": "<= 3 destinations, <= 3 messages (the first optionally a typed message whose serializer raises, i.e. replaced by its traceback + serialization_failure reports), optionally inside an action, <= 3 failing calls anywhere (incl. on reports); <= 2 destinations x 2 messages where every other failure is an exception whose str() raises", "thorough": "<= 4 messages, <= 4 failing calls"},
     ),
     Ob("E3", E3, body_E3, "X", desc="failures while the start-up buffer is re-delivered by add_destinations (inside or outside an action): one report per failure, same sequence for every destination", functions=["Destinations.add", "Destinations.send (logger=None)", "log_message", "Action.log"],
        twin=[{"F": 2, "twin_label": "failed-redelivery-inside-action"}], timeout={"quick": 100, "thorough": 300}, bounds={"quick": "1-2 buffered messages, 1-2 destinations, add_destinations inside/outside an action, <= 2 failing calls anywhere"}),
